@@ -394,6 +394,10 @@ class GrammarEval:
                         self._pp_elements['common.identifier'] = g
                     return self._pp_elements['common.identifier']
                 return PPRef(base.path + (e.attr,))
+            if isinstance(base, G) and e.attr == 'exprs' and base.kind in SEQ_KINDS:
+                return list(base.kids)           # ParseExpression.exprs: the very child elements (mutating one mutates the expression)
+            if isinstance(base, G) and e.attr == 'expr' and base.kids and base.kind not in SEQ_KINDS:
+                return base.kids[0]              # ParseElementEnhance.expr
             if isinstance(base, G):
                 return GMethod(base, e.attr)
             if isinstance(base, SelfRef):
